@@ -135,6 +135,87 @@ Definition nodes_site (w : world) (r : rstate) (ns : list node) : option (errk *
       end
   end.
 
+(** Where code generation stops with generate_code_lookup's NodeError ("... is not a code block
+    (...)": [{{x}}] with [x] bound to a number).  The error carries the file_info of the [{{x}}]
+    statement (its identifier token), wherever the statement stands: in the main text, in a macro body
+    (the line inside the macro definition), in an included file, in a block passed as an argument.
+    Same traversal as [gen_list] / [gen_one]; [None] when code generation does not fail, or fails
+    with anything else. *)
+Section CgSite.
+  Variable w : world.
+  Variable gen : cgstate -> list ast -> res (cgstate * list node).
+  Variable gsite : cgstate -> list ast -> option token.
+
+  Definition scoped_site (k : skind) (s : cgstate) (pre : rstate -> rstate * list node) (b : list ast) : option token :=
+    match enter_scope (cg_r s) k with
+    | Ok r1 => gsite (cg_set_r s (fst (pre r1))) b
+    | _ => None
+    end.
+
+  Fixpoint for_site (n : nat) (k : Z) (v : str) (b : list ast) (s : cgstate) : option token :=
+    match n with
+    | O => None
+    | S n' =>
+        match scoped gen SInternal s (fun r => (r, [NSymConst v k])) b with
+        | Ok x => for_site n' (k + 1) v b (fst x)
+        | Err _ => scoped_site SInternal s (fun r => (r, [NSymConst v k])) b
+        | OutOfFuel => None
+        end
+    end.
+
+  Definition gen_one_site (s : cgstate) (a : ast) : option token :=
+    let r := cg_r s in
+    match a with
+    | ABlock b _ => gsite s b
+    | ACompound b _ => scoped_site SPlain s (fun r => (r, [])) b
+    | AScope name b _ _ => scoped_site (SNamed name) s (fun r => (r, [])) b
+    | AMacroApply name args _ =>
+        match dict_get (cg_macros s) name with
+        | Some md =>
+            match eval_macro_args w r (md_params md) args with
+            | Ok bound => scoped_site SPlain s (fun r => bind_macro_args r bound) (md_body md)
+            | _ => None
+            end
+        | None => None
+        end
+    | ACodeLookup name fi =>
+        match value_for r name with
+        | Ok (VCode b _) => gsite s b
+        | Ok (VInt _) => Some fi
+        | _ => None
+        end
+    | AIf c th _ el _ =>
+        match if_condition w r c with
+        | Ok true => gsite s th
+        | Ok false => match el with Some (eb, _) => gsite s eb | None => None end
+        | _ => None
+        end
+    | AFor v lo hi b _ _ =>
+        match eval_raw w r lo, eval_raw w r hi with
+        | Ok from, Ok to => for_site (Z.to_nat (to - from)) from v b s
+        | _, _ => None
+        end
+    | _ => None
+    end.
+
+  Fixpoint gen_list_site (s : cgstate) (body : list ast) : option token :=
+    match body with
+    | [] => None
+    | a :: rest =>
+        match gen_one w gen s a with
+        | Ok x => gen_list_site (fst x) rest
+        | Err _ => gen_one_site s a
+        | OutOfFuel => None
+        end
+    end.
+End CgSite.
+
+Fixpoint code_gen_site (w : world) (fuel : nat) (s : cgstate) (body : list ast) {struct fuel} : option token :=
+  match fuel with
+  | O => None
+  | S f => gen_list_site w (code_gen_fuel w f) (code_gen_site w f) s body
+  end.
+
 Definition assemble_program (w : world) (c : config) (prog : list ast) : aresult :=
   match initial_resolver w c with
   | Ok r =>
@@ -145,7 +226,7 @@ Definition assemble_program (w : world) (c : config) (prog : list ast) : aresult
           | Err k => AExc k (match nodes_site w (cg_r s) ns with Some (_, site) => site | None => None end)
           | OutOfFuel => AFuel
           end
-      | Err k => AExc k None
+      | Err k => AExc k (code_gen_site w cg_depth {| cg_r := r; cg_macros := [] |} prog)
       | OutOfFuel => AFuel
       end
   | Err k => AExc k None
